@@ -262,3 +262,24 @@ Definition compatible (a b : circuit) : bool :=
   is_smooth a && is_decomposable a && is_smooth b && is_decomposable b &&
   let fa := factorizations a in let fb := factorizations b in
   forallb (fun p => all_same (facts_of (fst p) (fa ++ fb))) (fa ++ fb).
+
+(* ---------- normalised parameterisations (C12) ---------- *)
+Definition is_softmax_rows (e : pexpr) : bool :=
+  match e with
+  | PUn (USoftmax 1) (PTen _ _ _) => true
+  | PUn UMixing (PUn (USoftmax 1) (PTen _ _ _)) => true
+  | _ => false
+  end.
+Definition norm_input (l : layer) : bool :=
+  match l with
+  | LCat _ _ _ false (PUn (USoftmax 1) _) => true
+  | LBin _ _ _ false (PUn USigmoid _) => true
+  | LGau _ _ _ _ None => true
+  | _ => false
+  end.
+Definition normalised_struct (c : circuit) : bool :=
+  forallb (fun n => match fst n with
+                    | LSum _ _ _ w => is_softmax_rows w
+                    | LHad _ _ | LKron _ _ => true
+                    | l => norm_input l
+                    end) (nodes c).
